@@ -72,9 +72,6 @@ int __cxa_guard_acquire(u64 *g) { return *(u8 *)g == 0; }
 void __cxa_guard_release(u64 *g) { *(u8 *)g = 1; }
 void __cxa_guard_abort(u64 *g) { (void)g; }
 int __cxa_atexit(void *f, void *a, void *d) { (void)f; (void)a; (void)d; return 0; }
-#ifdef __CPROVER__
-void *__dso_handle;
-#endif
 void _ZSt9terminatev(void) { VF_FAIL("std::terminate"); }
 int vf_uncaught(void) { return vf_exc_pending; }
 void vf_clear_uncaught(void) { vf_exc_pending = 0; }
